@@ -153,6 +153,30 @@ AREAS = [
              params={'str': ('str', 'chars'), 'len': ('len', 'u64')},
              lists={'str': ('str', 'Z')}),
     ]),
+    # ---------------------------------------------------------------------------------------- C13 zone predicates
+    dict(area='zone', requires=['Icv.Src.XlPrelude', 'Icv.Msg.MzModel'], items=[
+        dict(glue='zone_ptr', props=['C13'], deps=[], doc='Zone::Ptr as option nat over the model\'s zone tree: null test, pointer equality, GetParent(), GetGlobal()',
+             text='Definition xz_some (o : option nat) : bool := match o with Some _ => true | None => false end.\n'
+                  'Definition xz_eqb (a b : option nat) : bool :=\n  match a, b with Some x, Some y => Nat.eqb x y | None, None => true | _, _ => false end.\n'
+                  'Definition xz_parent (t : mz_tree) (o : option nat) : option nat := match o with Some z => mz_par t z | None => None end.\n'
+                  'Definition xz_global (t : mz_tree) (o : option nat) : bool := match o with Some z => mz_glob t z | None => false end.\n'),
+        dict(name='zone_is_child_of', func='Zone::IsChildOf', file='lib/remote/zone.cpp', props=['C13', 'C11'],
+             inputs=[('t', 'mz_tree'), ('fuel', 'nat'), ('a', 'nat'), ('z', 'option nat')], ret='bool', fuel='fuel',
+             types={'zptr': dict(coq='option nat', truth='xz_some', eqb='xz_eqb')}, ctypes={'Zone::Ptr': 'zptr'},
+             params={'zone': ('z', 'zptr')}, bind={'this': ('Some a', 'zptr')},
+             fns={'zptr->GetParent': ('xz_parent t', ['zptr'], 'zptr')}),
+        dict(glue='zone_is_child_of_call', props=['C13'], deps=['zone_is_child_of'],
+             doc='a call object_zone->IsChildOf(zone) with the fuel that suffices on a well-formed tree (parents have smaller numbers); null receiver / exhausted fuel = false',
+             text='Definition xz_is_child_of (t : mz_tree) (o z : option nat) : bool :=\n'
+                  '  match o with Some a => match src_zone_is_child_of t (S (S a)) a z with Some b => b | None => false end | None => false end.\n'),
+        dict(name='zone_can_access_object', func='Zone::CanAccessObject', file='lib/remote/zone.cpp', props=['C13'],
+             inputs=[('t', 'mz_tree'), ('l', 'nat'), ('z', 'nat'), ('is_zone_obj', 'bool'), ('obj_self', 'option nat'), ('obj_zone', 'option nat')], ret='bool',
+             types={'zptr': dict(coq='option nat', truth='xz_some', eqb='xz_eqb')}, ctypes={'Zone::Ptr': 'zptr'},
+             bind={'object->GetReflectionType()==Zone::TypeInstance': Bb('is_zone_obj'),
+                   'static_pointer_cast<Zone>(object)': ('obj_self', 'zptr'), 'static_pointer_cast<Zone>(object->GetZone())': ('obj_zone', 'zptr'),
+                   'Zone::GetLocalZone()': ('Some l', 'zptr'), 'this': ('Some z', 'zptr')},
+             fns={'zptr->GetGlobal': ('xz_global t', ['zptr'], 'bool'), 'zptr->IsChildOf': ('xz_is_child_of t', ['zptr', 'zptr'], 'bool')}),
+    ]),
 ]
 
 ENUM_SOURCES = [('lib/icinga/checkresult.ti', ['HostState', 'ServiceState', 'StateType'], 'f_'),
